@@ -67,7 +67,7 @@ def main():
                 os.remove(os.path.join(WT, test_path))
                 fails = []
                 for tp in touched:
-                    rct, outt = sh(f"go test -vet=off -count=1 -timeout 25m {tp}", timeout=2400)
+                    rct, outt = sh(f"go test -vet=off -count=1 -timeout 25m -skip '^(" + "|".join(sorted(BASELINE_FAIL)) + ")$' {tp}", timeout=2400)
                     for l in outt.splitlines():
                         mm = re.match(r"--- FAIL: (\w+)", l)
                         if mm and mm.group(1) not in BASELINE_FAIL:
